@@ -76,6 +76,10 @@ def gen_bnf_grammar(rng, allow_langle: bool) -> G.Grammar:
                         syms[-1] = syms[-1] + t  # adjacent terminals merge in canonical form anyway
                     else:
                         syms.append(t)
+            if [x for x in G.split_expansion("".join(syms)) if G.is_nt(x)] != [x for x in syms if x in nts]:
+                # merged adjacent terminals ("<" + ">;") read as a nonterminal ("<>") that is not
+                # defined: in ISLa's grammar representation that text is not a terminal at all
+                syms = [x if x in nts else x.replace(">", ")") for x in syms]
             alts.append("".join(syms))
         if i + 1 < n and not any(nts[i + 1] in a for a in alts):
             alts.append(gen_terminal(rng, False).replace("<", "(") + nts[i + 1])
@@ -87,9 +91,20 @@ def has_langle(g: G.Grammar) -> bool:
     return any("<" in sym for alts in G.canon(g).values() for alt in alts for sym in alt if not (G.is_nt(sym) and sym in g))
 
 
+def well_formed(g: G.Grammar) -> bool:
+    """every token that ISLa's RE_NONTERMINAL reads as a nonterminal is defined"""
+    return all(sym in g for alts in G.canon(g).values() for alt in alts for sym in alt if G.is_nt(sym))
+
+
 def check_grammar(ctx: Ctx, g: G.Grammar, origin: str):
     from isla.language import unparse_grammar, parse_bnf
 
+    if not well_formed(g):
+        # not a grammar the property speaks about (a "terminal" such as "<>" is an undefined nonterminal)
+        ctx.count("grammar", "ill-formed-skipped")
+        if origin == "replay":
+            print("replay: the grammar uses an undefined nonterminal; it is outside the property's domain")
+        return
     ctx.evaluations += 1
     langle = has_langle(g)
     ctx.count("grammar", "with-langle" if langle else "no-langle")
